@@ -109,6 +109,9 @@ func VH_C06_call_lifecycle() {
 		if w == rpccp.Message_Which_return {
 			nret++
 			vAssert(t.returnIDs[i] == qid, "C06.life.return-carries-own-answer-id")
+			// this implementation gives parameter capabilities back with Release messages of its own, so
+			// its Returns must not ALSO tell the peer to release them (each reference is given back once)
+			vAssert(!t.returnRelParams[i], "C07.life.return-does-not-release-parameter-capabilities-a-second-time")
 		}
 	}
 	vAssert(nret == 1, "C06.life.exactly-one-return")
@@ -256,4 +259,33 @@ func VH_C07_import_release_window() {
 	vQuiescent(c, "C07.window.second")
 	vAssert(c.imports[id] == nil, "C07.window.entry-removed-after-last-release")
 	vAssert(len(t.releaseIDs) == 2 && t.releaseIDs[1] == uint32(id) && t.releaseCounts[1] == 1, "C07.window.second-release-sent")
+}
+
+// The bootstrap capability: every Bootstrap answer holds its OWN reference; when the peer has
+// finished the answer and released the export, the connection still has its bootstrap capability
+// (alive, and a second Bootstrap succeeds); Close releases it exactly once.
+func VH_C07_bootstrap_answer_refs() {
+	t := &vTransport{}
+	boot := &vRecvHook{}
+	c := vNewConn(t, capnp.NewClient(boot))
+	vAssert(c.handleBootstrap(c.bgctx, 7) == nil, "C07.boot.first-bootstrap-answered")
+	vQuiescent(c, "C07.boot.first")
+	relCaps := vNondetBool()
+	vAssert(c.handleFinish(c.bgctx, 7, relCaps) == nil, "C07.boot.finish-accepted")
+	if !relCaps {
+		// the peer keeps the capability for a while, then releases its one reference
+		vAssert(len(c.exports) == 1 && c.exports[0] != nil && c.exports[0].wireRefs == 1, "C07.boot.export-has-one-wire-reference")
+		vAssert(c.handleRelease(c.bgctx, 0, 1) == nil, "C07.boot.release-accepted")
+	}
+	vReach("peer-holds-nothing")
+	vQuiescent(c, "C07.boot.released")
+	vAssert(len(c.exports) == 0 || c.exports[0] == nil, "C07.boot.export-gone")
+	vAssert(boot.shutdowns == 0, "C07.boot.connection-keeps-its-own-reference")
+	n := len(t.lastWhich)
+	vAssert(c.handleBootstrap(c.bgctx, 8) == nil, "C07.boot.second-bootstrap-answered")
+	vAssert(len(t.lastWhich) == n+1 && t.lastWhich[n] == rpccp.Message_Which_return, "C07.boot.second-return-sent")
+	vAssert(len(c.exports) >= 1 && c.exports[0] != nil, "C07.boot.second-bootstrap-exports-the-capability-again")
+	cerr := c.Close()
+	vAssert(cerr == nil, "C07.boot.close-ok")
+	vAssert(boot.shutdowns == 1, "C07.boot.released-exactly-once-at-close")
 }
